@@ -163,6 +163,12 @@ def _case(i):
         only_cfg = ('i0', 'i1', 'i2', 'c0', 'c1', 'c2')[i - 8]
         # (shift 0 or 2: the character starting at byte 2^20 - 1 resp. 2^20 - 2 of the line covers byte 2^20)
         text = 'ab'[:(0, 2)[i % 2]] + rng.choice(['한', '€']) * 352000 + rng.choice(['\n', '\n끝', ''])
+    if 14 <= i < 14 + len(BOUNDARY):
+        # every special character once as the VERY FIRST character of the input (byte order mark, NUL, line separators, the
+        # ends of the planes ...), alone or followed by ordinary text
+        ch = chr(BOUNDARY[i - 14])
+        kind = 'special_first_char'
+        text = ch + rng.choice(['', 'ab\n한\n', ch + 'x', '\n', 'abc'])
     sb = text.encode('utf-8')
     res['hist']['text:' + kind] = 1
     res['hist']['stdin_bytes'] = len(sb)
